@@ -1,6 +1,7 @@
 import Mathlib.Tactic
 import Mathlib.Logic.Function.Iterate
 import ExponaxModel.Model.Loops
+import ExponaxModel.Proofs.LoopsGenEq
 /-
 C14 — rollout, repeat and the wrapper steppers equal the naive loop.
 `Loops.*` is the hand-written mirror of exponax/_utils.py (`lax.scan` as a fold);
@@ -167,5 +168,21 @@ theorem C14_repeated_dt {K : Type} [Semiring K] (dt : K) (n : ℕ) : repeatedDt 
 example : rollout (fun x : ℕ => 2 * x + 1) 3 true 0 = [0, 1, 3, 7] := by decide
 example : stackSub [1, 2, 3, 4] 3 = some [[1, 2, 3], [2, 3, 4]] := by decide
 example : (3 : ℕ) ≤ [1, 2, 3, 4].length := by decide
+
+/-! ### `rollout`, `repeat`, `stack_sub_trajectories` and `RepeatedStepper` as REGENERATED from `exponax/_utils.py` and
+`_repeated_stepper.py` (`jax.lax.scan` read as the fold it denotes) are the model functions of the theorems above -/
+open Exponax.Gen.LoopsGen in
+theorem C14_generated_utilities {S A : Type} (f : S → S) (fa : S → A → S) (n k : ℕ) (b : Bool) (u0 : S) (a : A)
+    (trj : List S) :
+    rollout_noaux f n b u0 = Loops.rollout f n b u0 ∧
+    repeat_noaux f n u0 = Loops.repeatN f n u0 ∧
+    rollout_aux_constant fa n b u0 a = some (Loops.rolloutAux fa n b true u0 [a]) ∧
+    stack_sub_trajectories trj k = Loops.stackSub trj k ∧
+    RepeatedStepper_step_fourier n f u0 = Loops.repeatedStepFourier f n u0 :=
+  ⟨rollout_noaux_eq f n b u0, repeat_noaux_eq f n u0, rollout_aux_constant_eq fa n b u0 a,
+   stack_sub_trajectories_eq trj k, RepeatedStepper_step_fourier_eq f n u0⟩
+
+theorem C14_generated_coverage : Gen.LoopsGen.generated_loops.length = 9 := by
+  rw [Gen.LoopsGen.generated_loops_pinned]; rfl
 
 end Exponax
